@@ -439,7 +439,7 @@ func checkC12Fields(r *Report, p *Prog) {
 			if st == nil {
 				continue
 			}
-			ap := fc.AP(st.Val)
+			ap := canonFirstSet(a.Ctx(st.Parent()), st.Val)
 			ok := strings.HasSuffix(ap, e.want)
 			if strings.HasPrefix(e.want, "param:") {
 				prm, isP := st.Val.(*ssa.Parameter)
@@ -491,6 +491,34 @@ func checkC12Fields(r *Report, p *Prog) {
 		{"Issuer", "Value", issuer, "entity ID, or metadata URL when unset"},
 		{"LogoutResponse", "IssueInstant", "TimeNow()", "the library clock"},
 	})
+}
+
+// canonFirstSet renders "A if A is not empty, else B" written as a two-way phi in the form of the module's firstSet(A,B)
+// call, so that the helper call and its hand-inlined equivalent compare equal; other values render as their access path.
+func canonFirstSet(fc *FuncCtx, v ssa.Value) string {
+	ph, ok := v.(*ssa.Phi)
+	if !ok || len(ph.Edges) != 2 {
+		return fc.AP(v)
+	}
+	fc.ensureConds()
+	B := fc.A.B
+	blk := ph.Block()
+	conds := [2]*bddNode{}
+	for i := range ph.Edges {
+		conds[i] = B.And(fc.Cond(blk.Preds[i]), fc.edgeCond(blk.Preds[i], blk))
+	}
+	for i := 0; i < 2; i++ {
+		apA, apB := fc.AP(ph.Edges[i]), fc.AP(ph.Edges[1-i])
+		nm := "empty(" + apA + ")"
+		if !B.HasVar(nm) {
+			continue
+		}
+		e := B.Var(nm)
+		if B.Implies(conds[i], B.Not(e)) && B.Implies(conds[1-i], e) {
+			return "firstSet(" + apA + "," + apB + ")"
+		}
+	}
+	return fc.AP(v)
 }
 
 // ---- serialisation of etree documents (shared by C01, C06, C07, C08, C12) ----
